@@ -374,4 +374,187 @@ theorem run_spec (role : Nat) (hresp : role ≠ Extracted.C09.gwAuthorizer)
     refine ⟨h2, ?_⟩
     simp only [run, createEnv, h1]
 
+/-! ### a body that is cut short is never framed as complete -/
+
+theorem runInv_flush' (Hb body future : Bytes) :
+    ∀ (fuel : Nat) (st : St), RunInv Hb body st future → st.pending.length < fuel →
+      RunInv Hb body (flush false false fuel st) future ∧ (flush false false fuel st).pending = [] := by
+  intro fuel
+  induction fuel with
+  | zero => intro st _ hlt; omega
+  | succ f ih =>
+    intro st h hlt
+    unfold flush
+    by_cases he : st.pending.isEmpty ∨ (false = true)
+    · rw [if_pos he]
+      refine ⟨h, ?_⟩
+      rcases he with he | he
+      · simpa using he
+      · exact absurd he (by simp)
+    · rw [if_neg he]
+      have hne : st.pending ≠ [] := by
+        intro hc; apply he; left; rw [hc]; rfl
+      obtain ⟨h1, h2⟩ := runInv_stdinAppend Hb body st future h hne
+      exact ih _ h1 (by omega)
+
+theorem takeStream_open (t : Nat) (cs : List Bytes) (h : ∀ c ∈ cs, c ≠ []) :
+    takeStream t (cs.map (mkRec t)) = none := by
+  induction cs with
+  | nil => simp [takeStream]
+  | cons c tl ih =>
+    have hc : c ≠ [] := h c (by simp)
+    have hce : c.isEmpty = false := by cases c <;> simp_all
+    have e1 : (mkRec t c).type = t := rfl
+    have e2 : (mkRec t c).content = c := rfl
+    simp only [List.map_cons, takeStream, e1, e2, ne_eq, not_true_eq_false, ↓reduceIte, hce,
+      Bool.false_eq_true, ih (fun x hx => h x (by simp [hx]))]
+
+theorem open_wire (role : Nat) (params : Bytes) (cs : List Bytes) :
+    head role params ++ stdinRecs 1 cs =
+      wire (mkRec tBegin (beginBody role) :: mkRec tParams params :: mkRec tParams [] ::
+            cs.map (mkRec tStdin)) := by
+  rw [stdinRecs_wire]
+  simp only [head, header_eq_record, wire, mkRec, List.flatMap_cons, List.append_assoc]
+
+/-- without the closing empty STDIN record the application does not see a complete request -/
+theorem decode_open (role : Nat) (env : List (Bytes × Bytes)) (henv : env ≠ [])
+    (hfit : (nvPairs env).length ≤ maxLen) (cs : List Bytes) (hcs : ChunksOk cs) :
+    decode (head role (nvPairs env) ++ stdinRecs 1 cs) = none := by
+  have hm : maxLen = 65535 := rfl
+  rw [open_wire]
+  generalize hrecs : (mkRec tBegin (beginBody role) :: mkRec tParams (nvPairs env) :: mkRec tParams [] ::
+            cs.map (mkRec tStdin)) = recs
+  have hok : ∀ r ∈ recs, r.ok := by
+    intro r hr
+    rw [← hrecs] at hr
+    simp only [List.mem_cons, List.mem_map] at hr
+    rcases hr with rfl | rfl | rfl | ⟨c, hc, rfl⟩
+    · exact ⟨by simp only [mkRec]; decide, by simp only [mkRec]; decide, by simp [mkRec, beginBody]⟩
+    · exact ⟨by simp only [mkRec]; decide, by simp only [mkRec]; decide, by simp only [mkRec]; omega⟩
+    · exact ⟨by simp only [mkRec]; decide, by simp only [mkRec]; decide, by simp [mkRec]⟩
+    · exact ⟨by simp only [mkRec]; decide, by simp only [mkRec]; decide,
+             by have := (hcs c hc).2; simp only [mkRec]; omega⟩
+  unfold decode
+  rw [decodeRecords_wire recs hok _ (by have := wire_length_ge recs; omega)]
+  rw [← hrecs]
+  simp only
+  split
+  · rfl
+  · have hpne : nvPairs env ≠ [] := by
+      intro h
+      have := nvPairs_length_ge env
+      rw [h] at this
+      cases env with
+      | nil => exact henv rfl
+      | cons a t => simp at this
+    have hparams : takeStream tParams (mkRec tParams (nvPairs env) :: mkRec tParams [] ::
+        cs.map (mkRec tStdin)) = some (nvPairs env, cs.map (mkRec tStdin)) := by
+      have := takeStream_chunks tParams 1 [nvPairs env] (cs.map (mkRec tStdin))
+        (by intro c hc; simp only [List.mem_singleton] at hc; rw [hc]; exact hpne)
+      simp only [List.map_cons, List.map_nil, List.cons_append, List.nil_append, List.flatten_cons,
+        List.flatten_nil, List.append_nil] at this
+      exact this
+    rw [hparams]
+    simp only
+    rw [takeStream_open tStdin cs (fun c hc => (hcs c hc).1)]
+    split <;> simp_all
+
+/-- the announced body length is larger than what ever arrives: the stream stays open (no empty
+    STDIN record, gateway still expects more) whatever the schedule -/
+theorem run_truncated (role : Nat) (hresp : role ≠ Extracted.C09.gwAuthorizer)
+    (env : List (Bytes × Bytes)) (henv : env ≠ []) (hfit : (nvPairs env).length ≤ maxLen)
+    (seg0 : Bytes) (segs : List Bytes) (bodyLen : Nat)
+    (hlt : (seg0 :: segs).flatten.length < bodyLen) :
+    ∃ st, run role false env (bodyLen : Int) seg0 segs = some st ∧ decode st.out = none ∧
+      st.reqlen ≠ (st.out.length : Int) ∧ st.pending = [] := by
+  have hauth : (decide (role = Extracted.C09.gwAuthorizer)) = false := by simp [hresp]
+  rcases addAll_spec env [] (by decide) with ⟨h1, _⟩ | ⟨_, h2⟩
+  · simp only [List.nil_append] at h1
+    generalize hmiss : List.replicate (bodyLen - (seg0 :: segs).flatten.length) (0 : UInt8) = missing
+    have hmlen : missing.length = bodyLen - (seg0 :: segs).flatten.length := by rw [← hmiss]; simp
+    generalize hbody : (seg0 :: segs).flatten ++ missing = body
+    have hblen : body.length = bodyLen := by
+      rw [← hbody, List.length_append, hmlen]; omega
+    let Hb := head role (nvPairs env)
+    let st0 : St := { out := Hb, reqlen := ((Hb.length + body.length : Nat) : Int), pending := seg0 }
+    have hce : createEnv role false env (bodyLen : Int) seg0 = some (stdinAppend false false st0) := by
+      simp only [createEnv, h1, hauth]
+      congr 2
+      simp only [st0, Hb]
+      congr 1
+      have hpos : ((bodyLen : Nat) : Int) > 0 := by omega
+      have hne : ¬ (((bodyLen : Nat) : Int) = 0) := by omega
+      simp only [ne_eq, hne, not_false_eq_true, Bool.not_false, and_self, ↓reduceIte, hpos]
+      rw [hblen]; push_cast; rfl
+    have hopen0 : Open Hb body st0 [] := ⟨by simp [st0, stdinRecs], by simp [st0]⟩
+    have hsplit0 : ([] : List Bytes).flatten ++ st0.pending ++ (segs.flatten ++ missing) = body := by
+      rw [← hbody]; simp [st0, List.append_assoc]
+    obtain ⟨cs1, hc1, hs1, _, hsh1⟩ :=
+      stdinAppend_step Hb body st0 [] (segs.flatten ++ missing) (by intro c hc; simp at hc) hsplit0 hopen0
+    have hinv1 : RunInv Hb body (stdinAppend false false st0) (segs.flatten ++ missing) :=
+      ⟨cs1, hc1, hs1, hsh1⟩
+    have hinv2 := runInv_foldl Hb body segs _ missing hinv1
+    obtain ⟨hinv3, hp3⟩ := runInv_flush' Hb body missing
+      ((segs.foldl (arrive false false) (stdinAppend false false st0)).pending.length + 1) _ hinv2 (by omega)
+    obtain ⟨cs, hcs, hsplit, hshape⟩ := hinv3
+    have hrun : run role false env (bodyLen : Int) seg0 segs =
+        some (flush false false
+          ((segs.foldl (arrive false false) (stdinAppend false false st0)).pending.length + 1)
+          (segs.foldl (arrive false false) (stdinAppend false false st0))) := by
+      simp only [run, hce, hauth]
+    refine ⟨_, hrun, ?_⟩
+    rw [hp3] at hsplit
+    simp only [List.append_nil] at hsplit
+    have hmne : 0 < missing.length := by rw [hmlen]; omega
+    rcases hshape with ⟨⟨ho1, ho2⟩, _⟩ | hclosed
+    · refine ⟨?_, ?_, hp3⟩
+      · rw [ho1]; exact decode_open role env henv hfit cs hcs
+      · rw [ho2, ho1, List.length_append, stdinRecs_length]
+        have : cs.flatten.length + missing.length = body.length := by
+          rw [← hsplit, List.length_append]
+        push_cast
+        omega
+    · exfalso
+      have := hclosed.2.1
+      rw [← hsplit] at this
+      have h2 : (cs.flatten ++ missing).length = cs.flatten.length := by rw [← this]
+      rw [List.length_append] at h2
+      omega
+  · simp only [List.nil_append] at h2
+    omega
+
+/-- authorizer mode: the authorizer gets the variables and an empty, closed STDIN; the request
+    body stays in lighttpd (`pending` untouched) for the responder that follows -/
+theorem run_authorizer (env : List (Bytes × Bytes)) (henv : env ≠ [])
+    (hfit : (nvPairs env).length ≤ maxLen) (bodyLen : Int) (seg0 : Bytes) (segs : List Bytes) :
+    ∃ st, run Extracted.C09.gwAuthorizer false env bodyLen seg0 segs = some st ∧
+      decode st.out = some { role := Extracted.C09.gwAuthorizer, flags := 0, env := env, stdin := [] } ∧
+      st.pending = (seg0 :: segs).flatten := by
+  rcases addAll_spec env [] (by decide) with ⟨h1, _⟩ | ⟨_, h2⟩
+  · simp only [List.nil_append] at h1
+    have hk : Extracted.C09.fcgiHeaderLen = 8 := rfl
+    have hce : createEnv Extracted.C09.gwAuthorizer false env bodyLen seg0 =
+        some { out := head Extracted.C09.gwAuthorizer (nvPairs env) ++ header tStdin 1 0 0,
+               reqlen := ((head Extracted.C09.gwAuthorizer (nvPairs env)).length : Int) + 8,
+               pending := seg0 } := by
+      simp only [createEnv, h1, decide_true, Bool.not_true, Bool.false_eq_true, and_false, ↓reduceIte]
+      simp [stdinAppend, chunksOf, stdinRecs, hk]
+    have hfold : ∀ (segs : List Bytes) (st : St),
+        (segs.foldl (arrive true false) st) = { st with pending := st.pending ++ segs.flatten } := by
+      intro segs
+      induction segs with
+      | nil => intro st; simp
+      | cons s tl ih => intro st; simp [List.foldl_cons, arrive, ih, List.append_assoc]
+    have hrun : run Extracted.C09.gwAuthorizer false env bodyLen seg0 segs =
+        some { out := head Extracted.C09.gwAuthorizer (nvPairs env) ++ header tStdin 1 0 0,
+               reqlen := ((head Extracted.C09.gwAuthorizer (nvPairs env)).length : Int) + 8,
+               pending := seg0 ++ segs.flatten } := by
+      simp only [run, hce, decide_true, hfold]
+      simp [flush]
+    refine ⟨_, hrun, ?_, by simp⟩
+    have := decode_closed Extracted.C09.gwAuthorizer (by decide) env henv hfit [] (by intro c hc; simp at hc)
+    simpa [stdinRecs] using this
+  · simp only [List.nil_append] at h2
+    omega
+
 end LtVerif.Fcgi
